@@ -42,6 +42,7 @@ import (
 	"fmt"
 	"go/ast"
 	"go/parser"
+	"go/printer"
 	"go/token"
 	"go/types"
 	"path/filepath"
@@ -53,6 +54,12 @@ func init() {
 	registerFallback("c07_validate", "ValidateCode.v", c07Unavailable("ValidateCode.v", "c07_validate", "compose/graph.go (getNode*Type, getNodeGenericHelper, updateToValidateMap)")+c07RefValidate)
 	register("c07_branch", c07ExtractBranch)
 	registerFallback("c07_branch", "BranchCode.v", c07Unavailable("BranchCode.v", "c07_branch", "compose/graph.go (addBranch) / compose/branch.go (newGraphBranch)")+c07RefBranch)
+	register("c07_addedge", c07ExtractAddEdge)
+	registerFallback("c07_addedge", "AddEdgeCode.v", c07Unavailable("AddEdgeCode.v", "c07_addedge", "compose/graph.go (addEdgeWithMappings)")+c07RefAddEdge)
+	register("c07_nodetype", c07ExtractNodeType)
+	registerFallback("c07_nodetype", "NodeTypeCode.v", c07Unavailable("NodeTypeCode.v", "c07_nodetype", "compose/graph_node.go (inputType, outputType, getGenericHelper of graphNode)")+c07RefNodeType)
+	register("c07_compile", c07ExtractCompile)
+	registerFallback("c07_compile", "CompileCode.v", c07Unavailable("CompileCode.v", "c07_compile", "compose/graph.go (compile)")+c07RefCompile)
 	register("c07_addnode", c07ExtractAddNode)
 	registerFallback("c07_addnode", "AddNodeCode.v", c07Unavailable("AddNodeCode.v", "c07_addnode", "compose/graph.go (addNode)")+c07RefAddNode)
 }
@@ -71,17 +78,20 @@ func c07Header(file, name, what string) string {
 const c07Imports = "From Eino Require Import Base.Util Model.Types Model.TypesGenLib Model.TypeBuilder Model.TypeBuilderGenLib.\n"
 
 type c07Tr struct {
-	fn       string            // for messages
-	keys     map[string]string // squashed Go expression -> Gallina key term
-	tyLocals map[string]bool   // locals of type reflect.Type
-	asLocals map[string]bool   // locals holding a checkAssignable result
-	tyNames  map[string]string // squashed Go expression -> Gallina term of type option ty (piece-specific)
-	ghNames  map[string]string // squashed Go expression -> Gallina helper term
-	cvNames  map[string]string // squashed Go expression -> Gallina converter term (option ty)
-	bools    map[string]string // squashed Go condition -> Gallina bool term
-	kind     string            // "xres" | "bres" | "ty" | "helper" | "check"
-	errVars  map[string]bool   // identifiers known to hold a non-nil error here
-	skipIf   map[string]bool   // squashed conditions of if statements outside the model (skipped whole)
+	fn        string            // for messages
+	keys      map[string]string // squashed Go expression -> Gallina key term
+	tyLocals  map[string]bool   // locals of type reflect.Type
+	asLocals  map[string]bool   // locals holding a checkAssignable result
+	tyNames   map[string]string // squashed Go expression -> Gallina term of type option ty (piece-specific)
+	ghNames   map[string]string // squashed Go expression -> Gallina helper term
+	cvNames   map[string]string // squashed Go expression -> Gallina converter term (option ty)
+	bools     map[string]string // squashed Go condition -> Gallina bool term
+	kind      string            // "xres" | "bres" | "ty" | "helper" | "check"
+	errVars   map[string]bool   // identifiers known to hold a non-nil error here
+	skipIf    map[string]bool   // squashed conditions of if statements outside the model (skipped whole)
+	nodeAlias map[string]string // identifier bound to g.nodes[k] -> Gallina key term k
+	ghLocals  map[string]bool   // locals holding a *genericHelper
+	sticky    bool              // kind "ares": behind the `defer` that makes an error sticky
 }
 
 func (t *c07Tr) errf(format string, a ...interface{}) error {
@@ -97,6 +107,9 @@ func (t *c07Tr) key(e ast.Expr) (string, bool) {
 
 // g.nodes[k] -> k
 func (t *c07Tr) nodeIndex(e ast.Expr) (string, bool) {
+	if id, ok := e.(*ast.Ident); ok && t.nodeAlias[id.Name] != "" {
+		return t.nodeAlias[id.Name], true // the value variable of `for k, node := range g.nodes`
+	}
 	ix, ok := e.(*ast.IndexExpr)
 	if !ok || c07sq(ix.X) != "g.nodes" {
 		return "", false
@@ -166,6 +179,21 @@ func (t *c07Tr) tyExpr(e ast.Expr) (string, bool) {
 func (t *c07Tr) ghExpr(e ast.Expr) (string, bool) {
 	if s, ok := t.ghNames[c07sq(e)]; ok {
 		return s, true
+	}
+	if id, ok := e.(*ast.Ident); ok && t.ghLocals[id.Name] {
+		return id.Name, true
+	}
+	if c07IsNil(e) && t.kind == "helper" {
+		return "None", true
+	}
+	if x, m, args, ok := c07MethodCall(e); ok && len(args) == 0 && (m == "forMapInput" || m == "forMapOutput") {
+		if h, ok := t.ghExpr(x); ok {
+			f := "gh_for_map_in"
+			if m == "forMapOutput" {
+				f = "gh_for_map_out"
+			}
+			return "(" + f + " m " + h + ")", true
+		}
 	}
 	if x, m, args, ok := c07MethodCall(e); ok {
 		switch {
@@ -307,13 +335,24 @@ func (t *c07Tr) endValue() (string, error) {
 		return "XCont removed changed xs", nil
 	case "bres":
 		return "BOk xs conv", nil
-	case "check":
+	case "check", "check2":
 		return "true", nil
+	case "convs":
+		return "(pre_conv, post_conv)", nil
+	}
+	if t.kind == "ares" {
+		return "", t.errf("control reaches the end of the function without a return")
 	}
 	return "", t.errf("control reaches the end of the function without a return")
 }
 
 func (t *c07Tr) failValue() string {
+	if t.kind == "ares" {
+		if t.sticky {
+			return "AFailSticky"
+		}
+		return "AFailPlain"
+	}
 	switch t.kind {
 	case "xres":
 		return "XFail"
@@ -324,6 +363,9 @@ func (t *c07Tr) failValue() string {
 }
 
 func (t *c07Tr) isErrorValue(e ast.Expr) bool {
+	if s := c07sq(e); s == "g.buildError" || s == "ErrGraphCompiled" {
+		return t.kind == "ares"
+	}
 	if id, ok := e.(*ast.Ident); ok {
 		return t.errVars[id.Name]
 	}
@@ -381,6 +423,18 @@ func (t *c07Tr) stmts(l []ast.Stmt, ind string, depth int) (string, error) {
 		if ok && gd.Tok == token.VAR {
 			for _, sp := range gd.Specs {
 				vs := sp.(*ast.ValueSpec)
+				if vs.Type != nil && c07sq(vs.Type) == "*genericHelper" && len(vs.Values) == 0 && t.kind == "helper" {
+					for _, n := range vs.Names {
+						t.ghLocals[n.Name] = true
+					}
+					// a nil pointer until assigned
+					r, err := rest(1)
+					var b strings.Builder
+					for _, n := range vs.Names {
+						b.WriteString("let " + n.Name + " := @None (ty * ty) in\n" + ind)
+					}
+					return b.String() + r, err
+				}
 				if vs.Type == nil || c07sq(vs.Type) != "reflect.Type" || len(vs.Values) != 0 {
 					return "", t.errf("declaration %s", "var of another type")
 				}
@@ -401,6 +455,9 @@ func (t *c07Tr) stmts(l []ast.Stmt, ind string, depth int) (string, error) {
 				if s, ok := t.tyExpr(x.Results[0]); ok {
 					return s, nil
 				}
+				if c07IsNil(x.Results[0]) {
+					return "None", nil
+				}
 			}
 		case "helper":
 			if len(x.Results) == 1 {
@@ -412,17 +469,86 @@ func (t *c07Tr) stmts(l []ast.Stmt, ind string, depth int) (string, error) {
 			if len(x.Results) == 1 && t.isErrorValue(x.Results[0]) {
 				return t.failValue(), nil
 			}
+			if t.kind == "check2" && len(x.Results) == 2 && c07IsNil(x.Results[0]) && t.isErrorValue(x.Results[1]) {
+				return t.failValue(), nil
+			}
+			if len(x.Results) == 1 && c07IsNil(x.Results[0]) && t.kind == "ares" {
+				return "AOk xs", nil
+			}
 			if len(x.Results) == 1 && c07IsNil(x.Results[0]) && t.kind != "xres" {
 				return t.endValue()
 			}
 		}
 		return "", t.errf("return %s not recognised", c07Squash(c07ExprList(x.Results)))
 	case *ast.ExprStmt:
-		if call, ok := x.X.(*ast.CallExpr); ok && c07sq(call.Fun) == "g.addToValidateMap" && len(call.Args) == 3 && c07IsNil(call.Args[2]) {
+		if call, ok := x.X.(*ast.CallExpr); ok && c07sq(call.Fun) == "g.addToValidateMap" && len(call.Args) == 3 && (c07IsNil(call.Args[2]) || (t.kind == "ares" && c07sq(call.Args[2]) == "mappings")) {
 			s, ok1 := t.key(call.Args[0])
 			e, ok2 := t.key(call.Args[1])
 			if ok1 && ok2 {
 				return let("xs", "x_add_tvm xs "+s+" "+e, 1)
+			}
+		}
+	case *ast.DeferStmt:
+		// defer func() { if err != nil { g.buildError = err } }()
+		if t.kind == "ares" && depth == 0 && !t.sticky && c07Squash(c07NodeString(x.Call)) == "func(){iferr!=nil{g.buildError=err}}()" {
+			t.sticky = true
+			return rest(1)
+		}
+	case *ast.RangeStmt:
+		// for i := range g.controlEdges[s] { if g.controlEdges[s][i] == e { return <error> } }
+		if t.kind == "ares" && x.Key != nil && x.Value == nil && len(x.Body.List) == 1 {
+			if ix, ok := x.X.(*ast.IndexExpr); ok && (c07sq(ix.X) == "g.controlEdges" || c07sq(ix.X) == "g.dataEdges") {
+				if sk, ok := t.key(ix.Index); ok {
+					if is, ok := x.Body.List[0].(*ast.IfStmt); ok && is.Init == nil && is.Else == nil && len(is.Body.List) == 1 {
+						if r, ok := is.Body.List[0].(*ast.ReturnStmt); ok && len(r.Results) == 1 && t.isErrorValue(r.Results[0]) {
+							if be, ok := is.Cond.(*ast.BinaryExpr); ok && be.Op == token.EQL && c07sq(be.X) == c07sq(x.X)+"["+c07sq(x.Key)+"]" {
+								if ek, ok := t.key(be.Y); ok {
+									f := "x_has_ctrl"
+									if c07sq(ix.X) == "g.dataEdges" {
+										f = "x_has_data"
+									}
+									r, err := rest(1)
+									return "if (" + f + " xs " + sk + " " + ek + ") then " + t.failValue() + "\n" + ind + "else " + r, err
+								}
+							}
+						}
+					}
+				}
+			}
+		}
+		if t.kind == "check2" && len(x.Body.List) == 1 {
+			is, ok := x.Body.List[0].(*ast.IfStmt)
+			if ok && is.Init == nil && is.Else == nil && len(is.Body.List) == 1 {
+				if r, ok := is.Body.List[0].(*ast.ReturnStmt); ok && len(r.Results) == 2 && c07IsNil(r.Results[0]) && t.isErrorValue(r.Results[1]) {
+					// for _, v := range g.toValidateMap { if len(v) > 0 { return nil, <error> } }
+					if c07sq(x.X) == "g.toValidateMap" && x.Value != nil && c07sq(is.Cond) == "len("+c07sq(x.Value)+")>0" {
+						r, err := rest(1)
+						return "if (x_any_pending xs) then false\n" + ind + "else " + r, err
+					}
+					// for k, node := range g.nodes { if C(node) { return nil, <error> } }
+					if c07sq(x.X) == "g.nodes" && x.Value != nil {
+						v := c07sq(x.Value)
+						saved := map[string]string{}
+						for _, m := range []string{"inputType", "outputType"} {
+							k := v + "." + m + "()"
+							saved[k] = t.tyNames[k]
+							t.tyNames[k] = "(n_" + map[string]string{"inputType": "in", "outputType": "out"}[m] + " node)"
+						}
+						c, err := t.cond(is.Cond)
+						for k, o := range saved {
+							if o == "" {
+								delete(t.tyNames, k)
+							} else {
+								t.tyNames[k] = o
+							}
+						}
+						if err != nil {
+							return "", err
+						}
+						r, err := rest(1)
+						return "if (x_any_node (fun node => " + c + ") xs) then false\n" + ind + "else " + r, err
+					}
+				}
 			}
 		}
 	case *ast.IncDecStmt:
@@ -441,6 +567,11 @@ func (t *c07Tr) stmts(l []ast.Stmt, ind string, depth int) (string, error) {
 				return "match upd xs with\n" + ind + "| None => " + t.failValue() + "\n" + ind + "| Some xs =>\n" + ind + r + "\n" + ind + "end", err
 			}
 			// locals
+			if id, ok := lhs.(*ast.Ident); ok && t.ghLocals[id.Name] && x.Tok == token.ASSIGN {
+				if h, ok := t.ghExpr(rhs); ok {
+					return let(id.Name, h, 1)
+				}
+			}
 			if id, ok := lhs.(*ast.Ident); ok {
 				if call, ok := rhs.(*ast.CallExpr); ok && c07sq(call.Fun) == "checkAssignable" {
 					r, ok := t.asExpr(rhs)
@@ -500,6 +631,20 @@ func (t *c07Tr) stmts(l []ast.Stmt, ind string, depth int) (string, error) {
 					}
 				}
 			}
+			// g.controlEdges[s] = append(g.controlEdges[s], e) / g.dataEdges[s] = append(g.dataEdges[s], e)
+			if ix, ok := lhs.(*ast.IndexExpr); ok && (c07sq(ix.X) == "g.controlEdges" || c07sq(ix.X) == "g.dataEdges") {
+				if sk, ok := t.key(ix.Index); ok {
+					if call, ok := rhs.(*ast.CallExpr); ok && c07sq(call.Fun) == "append" && len(call.Args) == 2 && c07sq(call.Args[0]) == ls {
+						if ek, ok := t.key(call.Args[1]); ok {
+							f := "x_add_ctrl"
+							if c07sq(ix.X) == "g.dataEdges" {
+								f = "x_add_data"
+							}
+							return let("xs", f+" xs "+sk+" "+ek, 1)
+						}
+					}
+				}
+			}
 			// g.handlerOnEdges[s][e] = append(g.handlerOnEdges[s][e], c)
 			if ix, ok := lhs.(*ast.IndexExpr); ok {
 				if ix2, ok := ix.X.(*ast.IndexExpr); ok && c07sq(ix2.X) == "g.handlerOnEdges" {
@@ -527,6 +672,18 @@ func (t *c07Tr) stmts(l []ast.Stmt, ind string, depth int) (string, error) {
 								return let("conv", "["+strings.Join(cs, "; ")+"]", 1)
 							}
 						}
+					}
+				}
+			}
+			// chCall.preProcessor = withResultConverter(chCall.preProcessor, c)
+			if t.kind == "convs" && (ls == "chCall.preProcessor" || ls == "chCall.postProcessor") {
+				if call, ok := rhs.(*ast.CallExpr); ok && c07sq(call.Fun) == "withResultConverter" && len(call.Args) == 2 && c07sq(call.Args[0]) == ls {
+					if c, ok := t.cvExpr(call.Args[1]); ok {
+						v := "pre_conv"
+						if ls == "chCall.postProcessor" {
+							v = "post_conv"
+						}
+						return let(v, c, 1)
 					}
 				}
 			}
@@ -630,7 +787,7 @@ func c07NewTr(fn, kind string) *c07Tr {
 	return &c07Tr{fn: fn, kind: kind,
 		keys:     map[string]string{"START": "kSTART", "END": "kEND"},
 		tyLocals: map[string]bool{}, asLocals: map[string]bool{}, tyNames: map[string]string{}, ghNames: map[string]string{},
-		cvNames: map[string]string{}, bools: map[string]string{}, errVars: map[string]bool{}, skipIf: map[string]bool{}}
+		cvNames: map[string]string{}, bools: map[string]string{}, errVars: map[string]bool{}, skipIf: map[string]bool{}, nodeAlias: map[string]string{}, ghLocals: map[string]bool{}}
 }
 
 func c07GraphMethod(f *ast.File, name string) (*ast.FuncDecl, error) {
@@ -888,6 +1045,158 @@ func c07ExtractBranch(repo string) (string, string, error) {
 	b.WriteString("Definition branch_end (upd : xstate -> option xstate) (xs : xstate) (startNode endNode : key) : bres :=\n" +
 		"  let conv := @nil (option ty) in\n  " + end + ".\n")
 	return "BranchCode.v", b.String(), nil
+}
+
+// ---------------------------------------------------------------------------------------------- c07_addedge
+
+func c07NodeString(n ast.Node) string {
+	var b strings.Builder
+	if err := printer.Fprint(&b, token.NewFileSet(), n); err != nil {
+		return ""
+	}
+	return b.String()
+}
+
+func c07ExtractAddEdge(repo string) (string, string, error) {
+	fset := token.NewFileSet()
+	f, err := c07ParseGo(fset, repo, "compose", "graph.go")
+	if err != nil {
+		return "", "", err
+	}
+	fn, err := c07GraphMethod(f, "addEdgeWithMappings")
+	if err != nil {
+		return "", "", err
+	}
+	if pn := c07ParamNames(fn); pn != "startNode:string,endNode:string,noControl:bool,noData:bool,mappings:...*FieldMapping" {
+		return "", "", fmt.Errorf("graph.addEdgeWithMappings: parameters (%s)", pn)
+	}
+	t := c07NewTr("graph.addEdgeWithMappings", "ares")
+	t.keys["startNode"] = "startNode"
+	t.keys["endNode"] = "endNode"
+	t.bools["g.buildError!=nil"] = "(g_err (x_st xs))"
+	t.bools["g.compiled"] = "(g_compiled (x_st xs))"
+	t.bools["noControl"] = "noControl"
+	t.bools["noData"] = "noData"
+	code, err := t.stmts(fn.Body.List, "  ", 0)
+	if err != nil {
+		return "", "", err
+	}
+	var b strings.Builder
+	b.WriteString(c07Header("AddEdgeCode.v", "c07_addedge", "compose/graph.go (addEdgeWithMappings, whole body)"))
+	b.WriteString(c07Imports + "\nDefinition tie_available : bool := true.\n\n")
+	b.WriteString("Definition add_edge (upd : xstate -> option xstate) (xs : xstate) (startNode endNode : key) (noControl noData : bool) : ares :=\n  " + code + ".\n")
+	return "AddEdgeCode.v", b.String(), nil
+}
+
+// ---------------------------------------------------------------------------------------------- c07_nodetype
+
+func c07ExtractNodeType(repo string) (string, string, error) {
+	fset := token.NewFileSet()
+	f, err := c07ParseGo(fset, repo, "compose", "graph_node.go")
+	if err != nil {
+		return "", "", err
+	}
+	var b strings.Builder
+	b.WriteString(c07Header("NodeTypeCode.v", "c07_nodetype", "compose/graph_node.go (methods inputType, outputType, getGenericHelper of graphNode)"))
+	b.WriteString(c07Imports + "\nDefinition tie_available : bool := true.\n\n")
+	for _, x := range []struct{ name, kind, def string }{
+		{"inputType", "ty", "Definition node_input_type (m : ty) (has_info in_key out_key is_graph has_cr : bool) (g_in g_out cr_in cr_out : option ty) (g_gh cr_gh : helper) : option ty"},
+		{"outputType", "ty", "Definition node_output_type (m : ty) (has_info in_key out_key is_graph has_cr : bool) (g_in g_out cr_in cr_out : option ty) (g_gh cr_gh : helper) : option ty"},
+		{"getGenericHelper", "helper", "Definition node_generic_helper (m : ty) (has_info in_key out_key is_graph has_cr : bool) (g_in g_out cr_in cr_out : option ty) (g_gh cr_gh : helper) : helper"},
+	} {
+		fn := c07MethodOf(f, "graphNode", x.name)
+		if fn == nil || fn.Body == nil || len(fn.Recv.List[0].Names) != 1 || fn.Recv.List[0].Names[0].Name != "gn" || len(fn.Type.Params.List) != 0 {
+			return "", "", fmt.Errorf("method (gn *graphNode).%s() not found", x.name)
+		}
+		t := c07NewTr("graphNode."+x.name, x.kind)
+		t.bools["gn.nodeInfo!=nil"] = "has_info"
+		for _, c := range []string{"!=0", ">0"} {
+			t.bools["len(gn.nodeInfo.inputKey)"+c] = "in_key"
+			t.bools["len(gn.nodeInfo.outputKey)"+c] = "out_key"
+		}
+		t.bools["gn.g!=nil"] = "is_graph"
+		t.bools["gn.cr!=nil"] = "has_cr"
+		t.tyNames["generic.TypeOf[map[string]any]()"] = "(Some m)"
+		t.tyNames["gn.g.inputType()"] = "g_in"
+		t.tyNames["gn.g.outputType()"] = "g_out"
+		t.tyNames["gn.cr.inputType"] = "cr_in"
+		t.tyNames["gn.cr.outputType"] = "cr_out"
+		t.ghNames["gn.g.getGenericHelper()"] = "g_gh"
+		t.ghNames["gn.cr.genericHelper"] = "cr_gh"
+		body, err := t.stmts(fn.Body.List, "  ", 0)
+		if err != nil {
+			return "", "", err
+		}
+		b.WriteString(x.def + " :=\n  " + body + ".\n\n")
+	}
+	return "NodeTypeCode.v", strings.TrimSuffix(b.String(), "\n"), nil
+}
+
+// ---------------------------------------------------------------------------------------------- c07_compile
+
+func c07ExtractCompile(repo string) (string, string, error) {
+	fset := token.NewFileSet()
+	f, err := c07ParseGo(fset, repo, "compose", "graph.go")
+	if err != nil {
+		return "", "", err
+	}
+	fn, err := c07GraphMethod(f, "compile")
+	if err != nil {
+		return "", "", err
+	}
+	l := fn.Body.List
+	// (1) the checks from `if len(g.startNodes) == 0` to the loop over g.nodes that looks for an untyped node
+	from, to := -1, -1
+	for i, s := range l {
+		if is, ok := s.(*ast.IfStmt); ok && is.Init == nil && c07sq(is.Cond) == "len(g.startNodes)==0" && from < 0 {
+			from = i
+		}
+		if rs, ok := s.(*ast.RangeStmt); ok && from >= 0 && to < 0 && c07sq(rs.X) == "g.nodes" && len(rs.Body.List) == 1 {
+			if is, ok := rs.Body.List[0].(*ast.IfStmt); ok && strings.Contains(c07sq(is.Cond), "Type()==nil") {
+				to = i
+			}
+		}
+	}
+	if from < 0 || to < from {
+		return "", "", fmt.Errorf("graph.compile: the start / end / pending / untyped-node checks were not found")
+	}
+	t := c07NewTr("graph.compile", "check2")
+	t.bools["len(g.startNodes)==0"] = "(negb (g_has_start (x_st xs)))"
+	t.bools["len(g.endNodes)==0"] = "(negb (g_has_end (x_st xs)))"
+	checks, err := t.stmts(l[from:to+1], "  ", 0)
+	if err != nil {
+		return "", "", err
+	}
+	// (2) the converters put behind the state handlers of a passthrough node
+	var loop *ast.RangeStmt
+	var pass *ast.IfStmt
+	for _, s := range l[to+1:] {
+		rs, ok := s.(*ast.RangeStmt)
+		if !ok || c07sq(rs.X) != "g.nodes" || rs.Key == nil || rs.Value == nil {
+			continue
+		}
+		for _, b := range rs.Body.List {
+			if is, ok := b.(*ast.IfStmt); ok && strings.Contains(c07sq(is.Cond), "ComponentOfPassthrough") {
+				loop, pass = rs, is
+			}
+		}
+	}
+	if loop == nil {
+		return "", "", fmt.Errorf("graph.compile: the handling of passthrough nodes' state handlers was not found")
+	}
+	t = c07NewTr("graph.compile", "convs")
+	t.keys[c07sq(loop.Key)] = "name"
+	t.nodeAlias[c07sq(loop.Value)] = "name"
+	convs, err := t.stmts([]ast.Stmt{pass}, "  ", 0)
+	if err != nil {
+		return "", "", err
+	}
+	var b strings.Builder
+	b.WriteString(c07Header("CompileCode.v", "c07_compile", "compose/graph.go (compile: the start / end node, pending-entry and untyped-node checks;\n   the converters put behind the state handlers of a passthrough node)"))
+	b.WriteString(c07Imports + "From Eino Require Import Gen.ValidateCode.\n\nDefinition tie_available : bool := true.\n\n")
+	b.WriteString("Definition compile_checks (xs : xstate) : bool :=\n  " + checks + ".\n\n")
+	b.WriteString("Definition handler_convs (xs : xstate) (name : key) : option ty * option ty :=\n  let pre_conv := @None ty in\n  let post_conv := @None ty in\n  " + convs + ".\n")
+	return "CompileCode.v", b.String(), nil
 }
 
 // ---------------------------------------------------------------------------------------------- c07_addnode
